@@ -84,6 +84,9 @@ static void h_run_case(hcase_t* c) {
     rt_reg((void*)&f->fifos[q].head, sizeof f->fifos[q].head, 10 + 2 * (int)q, 8);
     rt_reg((void*)&f->fifos[q].tail, sizeof f->fifos[q].tail, 11 + 2 * (int)q, 8);
   }
+  /* optional 3rd parameter: the round-robin cursor starts at `bias` (a multiple of np, so that the probe order is that
+   * of the model run from 0) and its reported values are debiased: cursors that cross 2^16 / 2^31 / 2^32 during the run */
+  if (c->nparams > 2 && c->params[2] > 0) { f->counter = (size_t)c->params[2]; rt_bias(0, c->params[2]); }
   rt_reg((void*)&f->counter, sizeof f->counter, 0, 8);
   rt_reg(nodes, sizeof nodes, 100, 8);
   rt_reg_rest(f, sizeof *f + (size_t)np * sizeof f->fifos[0], 3900);   /* search mode only: fields the model does not know */
